@@ -94,7 +94,10 @@ fn en_occupied(sh: Shape, op: Occ) {
                     want_k = Some(w);
                 }
                 Occ::Insert => {
-                    assert!(Some(e.insert(w)) == pre_k, "[C12] OccupiedEntry::insert returned a wrong old value");
+                    assert!(Some(e.insert(ret.unwrap_or(0))) == pre_k, "[C12] OccupiedEntry::insert returned a wrong old value");
+                    // the handle stays usable and keeps designating the element
+                    assert!(*e.key() == k && *e.get() == ret.unwrap_or(0), "[C12] after OccupiedEntry::insert the handle designates a wrong element");
+                    *e.get_mut() = w;
                     want_k = Some(w);
                 }
                 Occ::Remove => {
@@ -144,6 +147,7 @@ harness!(en_occ_get_mut__s8_8g0, en_occupied, S8_8G0, Occ::GetMut);
 harness!(en_occ_into_mut__s8_8g4, en_occupied, S8_8G4, Occ::IntoMut);
 harness!(en_occ_insert__s8_8g0, en_occupied, S8_8G0, Occ::Insert);
 harness!(en_occ_insert__s8_4a, en_occupied, S8_4A, Occ::Insert);
+harness!(en_occ_insert__s8_8g4, en_occupied, S8_8G4, Occ::Insert);
 harness!(en_occ_remove__s8_8g0, en_occupied, S8_8G0, Occ::Remove);
 harness!(en_occ_remove__s8_8g4, en_occupied, S8_8G4, Occ::Remove);
 harness!(en_occ_remove__s8_4one, en_occupied, S8_4ONE, Occ::Remove);
@@ -168,6 +172,9 @@ fn en_vacant_insert(sh: Shape) {
     let pre_q = ref_get(&m, &q);
     kani::assume(ref_get(&m, &k).is_none());
     let n = m.len();
+    let cap = m.capacity();
+    let l0 = old_len(&m);
+    let main_len0 = m.verif_parts().0.len();
     reset_counters();
     {
         let e = m.verif_vacant_entry(k);
@@ -178,6 +185,14 @@ fn en_vacant_insert(sh: Shape) {
     }
     assert!(hashes() <= 10 && acct::removes() <= 8 && acct::allocs() <= 1 && acct::rehash() == 0, "[C02] VacantEntry::insert exceeded the per-call work bound");
     let grew = acct::allocs() == 1;
+    // the same progress / headroom clauses as for HashMap::insert of a fresh key
+    let pending = if l0 > 0 { l0 } else if grew { main_len0 } else { 0 };
+    let step = if pending < R_SPEC { pending } else { R_SPEC };
+    assert!(old_len(&m) == pending - step, "[C03] a key-adding call did not move min(R, remaining) leftovers");
+    if cap > n {
+        assert!(!grew, "[C04] inserting a fresh key with capacity() > len() allocated");
+    }
+    assert!(m.capacity() >= cap, "[C04] capacity() decreased across a key-adding call");
     let sq = scan(&m, &q);
     assert!(sq.val == if q == k { Some(w) } else { pre_q }, "[C12] a write through the reference returned by VacantEntry::insert is not seen by the map");
     assert!(m.len() == n + 1, "[C01] len() wrong after VacantEntry::insert");
@@ -195,6 +210,7 @@ harness!(en_vacant_insert__u8f, en_vacant_insert, U8F);
 harness!(en_vacant_insert__s8_4a, en_vacant_insert, S8_4A);
 harness!(en_vacant_insert__s8_8g4, en_vacant_insert, S8_8G4);
 harness!(en_vacant_insert__s4f_e, en_vacant_insert, S4F_E);
+harness!(en_vacant_insert__s8t_4a, en_vacant_insert, S8T_4A);
 
 #[derive(Clone, Copy, PartialEq)]
 enum Raw {
